@@ -204,7 +204,13 @@ pub fn model_obs(m: &Melda) -> Value {
         let mut packs = m.verif_applied_packs();
         packs.sort();
         let (_, stage) = m.verif_data_index();
-        json!({"deltas": deltas, "trees": trees, "anchors": anchors, "objects": objects, "packs": packs, "read": read_res(m), "stage": stage})
+        // (the MESSAGE of a failed read is not compared with the model, only that it failed and how: error / abort)
+        let rd = match read_res(m) {
+            Value::Object(o) if o.contains_key("err") => json!({"err": "-"}),
+            Value::Object(o) if o.contains_key("panic") => json!({"panic": "-"}),
+            v => v,
+        };
+        json!({"deltas": deltas, "trees": trees, "anchors": anchors, "objects": objects, "packs": packs, "read": rd, "stage": stage})
     }));
     r.unwrap_or(Value::Null)
 }
